@@ -33,6 +33,11 @@ def decanon(j):
     return j
 
 
+def decanon_keep(j):
+    """canon'ed value -> canon'ed value usable as an op's "val" (identity; kept for clarity)."""
+    return j
+
+
 class ImmediateLoop:
     """Stands in for the loop of a RefCounter: the callback runs (is logged) at once."""
     def add_callback(self, cb, *a, **k):
